@@ -212,6 +212,9 @@ impl<F: Float, D: Distance<F>, N: NearestNeighbour>
             let neighbors = self.find_neighbors(&*nn, observations.row(points_index));
             let n = &mut points[points_index];
             self.set_core_distance(n, &neighbors, observations);
+            // The sample starting a new walk is listed before the samples it reaches
+            processed.insert(n.index);
+            result.orderings.push(n.clone());
             if n.core_distance.is_some() {
                 seeds.clear();
                 // Here we get a list of "density reachable" samples that haven't been processed
@@ -249,11 +252,6 @@ impl<F: Float, D: Distance<F>, N: NearestNeighbour>
                         );
                     }
                 }
-            } else {
-                // Ensure whole dataset is included so we can see the points with undefined core or
-                // reachability distance
-                result.orderings.push(n.clone());
-                processed.insert(n.index);
             }
         }
         result
